@@ -257,6 +257,17 @@ func zzStepMakers(vary int, pos *int, classes int) *zzMakers {
 				if zz.Choose(2) == 0 {
 					return zzLit("strings")
 				}
+			case "AnonCallExpr.Expr":
+				// the callee position: besides the classes of the tier, every
+				// function class of the universe (a call of a non-function ends
+				// before the call machinery is reached)
+				if classes < uNumClasses {
+					fns := []int{uFunc0, uFunc1, uFuncVar, uFunc5, uGoIdentity, uGoVariadic, uGoPanics, uGoErr}
+					if c := zz.Choose(len(fns) + 1); c < len(fns) {
+						*pos = *pos + 1
+						return zzLitRV(zzOperand(fns[c], zz.Choose(pNum)))
+					}
+				}
 			}
 			return child()
 		},
